@@ -9,13 +9,18 @@ Exhaustive enumeration (no sampling) of
  x --cov-band in {-1, 0, .., dim}  x --angular {400, 360}
  (+ text output: every --language x every --encoding)
 on the real gama-local, compare-xyz, gama-local-deformation executables and on
-gama's own result readers (harness/xmlrt.cpp).  See RULE below for the oracles.
+gama's own result readers (harness/xmlrt.cpp), and of
+   epoch pairs (lib/n12_epochs.py): {2-D, levelling, 3-D} x identifier set x
+   complete product of per-point statuses {xy, z, xyz adjusted, fixed, absent}
+   in each of the two epochs, all ordered pairs
+on gama-local-deformation.  See RULE below for the oracles.
 """
 import os, sys, json, subprocess, re, math, collections, time
 sys.path.insert(0, os.path.join(os.path.dirname(os.path.abspath(__file__)), "..", "lib"))
 import vlib, gnet
 import n12_nets as N
 import n12_parse as Q
+import n12_epochs as EP
 import xml.etree.ElementTree as ET
 
 LANGS = ["en", "ca", "cs", "cz", "du", "es", "fr", "fi", "hu", "ru", "ua", "zh"]
@@ -34,8 +39,18 @@ RULE = ("every network of the 40-member family x every string of the 11-item ide
         "(zero, exit 0) and r1 r2 (exact differences of the 3-D points, verdict against the tolerance), gama-local-deformation r r / r1 r2 (shifts, "
         "index triples, cov1+cov2) for a second epoch with different noise; text output of [quick: every 7th] network x {plain, 2-byte, 3-byte id} x "
         "12 language names x 5 encodings [thorough: x both angular units] carries the same decimal numbers as en/utf-8, the same number of lines as "
-        "the utf-8 output of the language, identical bytes when the text is pure ASCII; state = one distinct (network, id state, band, angular[, "
-        "language, encoding, epoch]) input, transition = one execution of gama-local / compare-xyz / gama-local-deformation / reader harness")
+        "the utf-8 output of the language, identical bytes when the text is pure ASCII; "
+        "gama-local-deformation on UNEQUAL epochs (lib/n12_epochs.py): network types {2-D distances, levelling, 3-D slope distances + height differences} over a "
+        "fixed anchor frame x identifier sets {same: point order of the adjustment XML == byte order of the ids used by the tool, rev: exact reverse "
+        "[quick: 3-D with rev only; thorough: + mixed]} x 3 variable points [thorough: + 4 points; 3-D with 4 points for the set rev only]; every point independently has in each "
+        "epoch one status of {x,y adjusted, z adjusted, x,y,z adjusted, fixed, absent} (2-D: {xy, fixed, absent}; levelling: {z, fixed, absent}); the "
+        "COMPLETE product of the statuses minus the assignments without an unknown (19 / 19 / 117 epochs with 3 points, 65 / 65 / 609 with 4) is adjusted "
+        "once per epoch by gama-local, then ALL ORDERED pairs of epochs of a family (both orders, every epoch with itself) go through the tool (text on "
+        "stdout): listed points == points with a coordinate adjusted in both files, in byte order of the ids; index triples; shifts and epoch-2 values of "
+        "the common coordinates to 1e-5; dim / band / row lengths of the matrix; every element == cov1 + cov2 taken at the rows the two coordinates have in "
+        "the two <cov-mat> (1e-5 + 1e-7 relative); reference computed from the two XML files alone; "
+        "state = one distinct (network, id state, band, angular[, language, encoding, epoch]) input or one ordered epoch pair, transition = one execution "
+        "of gama-local / compare-xyz / gama-local-deformation / reader harness")
 
 _FAM = None
 def fam():
@@ -637,18 +652,28 @@ def _cmpxyz(cx, ra, rb, name, exes, pc, item, pts3):
             cx.out["compare-xyz two: %s" % R["verdict"]] += 1
 
 
-def _deform(cx, ra, rb, name, exes, tmp, tag, pc, item):
+def _deform(cx, ra, rb, name, exes, tmp, tag, pc, item, extra=None, sfx="", via_stdout=False):
+    """one run of gama-local-deformation ra rb, judged against a reference that
+    is computed from the two adjustment XML files alone (python views Xa, Xb):
+    points with a coordinate adjusted in both, in byte order of the ids; index
+    triples; epoch2 - epoch1; cov1 + cov2 restricted to the common coordinates.
+    sfx: class appended to the signatures of the value oracles (epoch pairs);
+    returns the number of common coordinates when everything was judged."""
     if True:
         Xa, Xb = ra["X"], rb["X"]
-        outp = os.path.join(tmp, tag + "." + name + ".def")
-        rc, so, se = run_cmd([exes["def"], ra["path"], rb["path"], "--text", outp])
+        if via_stdout:
+            rc, txt, se = run_cmd([exes["def"], ra["path"], rb["path"]])
+        else:
+            outp = os.path.join(tmp, tag + "." + name + ".def")
+            rc, so, se = run_cmd([exes["def"], ra["path"], rb["path"], "--text", outp])
+            txt = rd(outp)
+            try: os.unlink(outp)
+            except OSError: pass
         cx.cnt["transitions"] += 1; cx.cnt["deformation runs"] += 1
-        txt = rd(outp)
-        try: os.unlink(outp)
-        except OSError: pass
         run = {"tool": "gama-local-deformation", "mode": name}
+        if extra: run.update(extra)
         if rc != 0 or txt is None:
-            cx.v("C12|deformation|crash|%s|%s" % (pc, item), "rc=%s err=%r" % (rc, se[-300:]), run); return
+            cx.v("C12|deformation|crash|%s|%s%s" % (pc, item, sfx), "rc=%s err=%r" % (rc, se[-300:]), run); return
         Dd = Q.deformation(txt.decode("utf8", "surrogateescape"))
         a = {p["id"]: p for p in Xa.points["adjusted"]}; b = {p["id"]: p for p in Xb.points["adjusted"]}
         ids = sorted(set(a) & set(b), key=lambda s: s.encode("utf8", "surrogateescape"))
@@ -664,18 +689,21 @@ def _deform(cx, ra, rb, name, exes, tmp, tag, pc, item):
             exp.append((i, ix, iy, iz, pb["x"] - pa["x"], pb["y"] - pa["y"], pb["z"] - pa["z"], pb["x"], pb["y"], pb["z"]))
         got = Dd["points"]
         if [g[0] for g in got] != [e[0] for e in exp] or Dd.get("junk"):
-            cx.v("C12|deformation|point-set|%s|%s" % (pc, item), "reported %r (+unparsed %r), expected %r" % ([g[0] for g in got], Dd.get("junk", [])[:2], [e[0] for e in exp]), run); return
+            cx.v("C12|deformation|point-set|%s|%s%s" % (pc, item, sfx), "reported %r (+unparsed %r), expected %r" % ([g[0] for g in got], Dd.get("junk", [])[:2], [e[0] for e in exp]), run); return
+        good = True
         for g, e in zip(got, exp):
             if g[1:4] != e[1:4]:
-                cx.v("C12|deformation|covariance-indexes", "point %r: %r, expected %r" % (g[0], g[1:4], e[1:4]), run); break
-            if any(not close(g[k], e[k], 5, 1e-9) for k in range(4, 10)):
-                cx.v("C12|deformation|shift|%s" % name, "point %r: reported %r, expected %r" % (g[0], g[4:], e[4:]), run); break
-        if name == "self" and any(g[k] != 0 for g in got for k in (4, 5, 6)):
-            cx.v("C12|deformation|self-not-zero", "%r" % (got[:2],), run)
+                cx.v("C12|deformation|covariance-indexes" + sfx, "point %r: %r, expected %r" % (g[0], g[1:4], e[1:4]), run); good = False; break
+            # only coordinates adjusted in both epochs have a shift (index != 0); the other columns of the row are not judged
+            cols = ([4, 5, 7, 8] if e[1] else []) + ([6, 9] if e[3] else [])
+            if any(not close(g[k], e[k], 5, 1e-9) for k in cols):
+                cx.v("C12|deformation|shift|%s%s" % (name, sfx), "point %r: reported %r, expected %r" % (g[0], g[4:], e[4:]), run); good = False; break
+        if name == "self" and any(g[k] != 0 for g in got for k in (4, 5, 6) if g[k - 3]):
+            cx.v("C12|deformation|self-not-zero" + sfx, "%r" % (got[:2],), run); good = False
         Ma, Mb = Q.full_cov(Xa), Q.full_cov(Xb)
         n = len(t1)
-        if Dd["dim"] != n or Dd["band"] != n - 1 or len(Dd["cov"]) != n:
-            cx.v("C12|deformation|cov-shape", "dim %s band %s rows %d, expected %d" % (Dd["dim"], Dd["band"], len(Dd["cov"]), n), run); return
+        if Dd["dim"] != n or Dd["band"] != n - 1 or len(Dd["cov"]) != n or any(len(r) != n - i for i, r in enumerate(Dd["cov"])):
+            cx.v("C12|deformation|cov-shape" + sfx, "dim %s band %s rows %r, expected dim %d" % (Dd["dim"], Dd["band"], [len(r) for r in Dd["cov"]], n), run); return
         okc = True
         for i in range(n):
             for j in range(i, n):
@@ -683,9 +711,11 @@ def _deform(cx, ra, rb, name, exes, tmp, tag, pc, item):
                 w = float(Ma[ka]) + float(Mb[kb])
                 g = Dd["cov"][i][j - i]
                 if not close(g, w, 5, 1e-9 + 1e-7 * abs(w)):
-                    cx.v("C12|deformation|covariance-sum", "C(%d,%d): reported %.5f, cov1+cov2 = %.7f" % (i + 1, j + 1, g, w), run); okc = False; break
+                    cx.v("C12|deformation|covariance-sum" + sfx, "C(%d,%d): reported %.5f, cov1+cov2 = %.7f (cov1 row/col %d,%d  cov2 row/col %d,%d)" % (
+                        i + 1, j + 1, g, w, t1[i], t1[j], t2[i], t2[j]), run); okc = False; break
             if not okc: break
-        cx.out["deformation %s ok" % name] += 1
+        if not sfx: cx.out["deformation %s ok" % name] += 1
+        return n if (good and okc) else None
 
 
 def bands_for(dim, mode):
@@ -821,9 +851,89 @@ def task_lang(task):
     return (cx.viol, dict(cx.out), dict(cx.cnt), cx.sample)
 
 
+# -----------------------------------------------------------------------------
+# epoch pairs for gama-local-deformation (lib/n12_epochs.py)
+def ep_dir(tmp, fam):
+    return os.path.join(tmp, "ep_" + EP.famkey(fam).replace(":", "_"))
+
+
+def task_epochprep(task):
+    """adjust a slice of the epochs of one family; the XML files stay in the scratch directory"""
+    cx = Ctx(task)
+    fam = tuple(task["fam"]); tmp, exes = task["tmp"], task["exes"]
+    d = ep_dir(tmp, fam)
+    os.makedirs(d, exist_ok=True)
+    for st in task["sts"]:
+        inp = os.path.join(d, st + ".gkf"); outp = os.path.join(d, st + ".xml")
+        with open(inp, "w", encoding="utf8") as f: f.write(EP.gkf(fam, st))
+        rc, so, se = run_cmd([exes["gama"], inp, "--xml", outp])
+        cx.cnt["transitions"] += 1; cx.cnt["gama-local runs"] += 1; cx.cnt["states"] += 1; cx.cnt["epoch adjustments"] += 1
+        try: os.unlink(inp)
+        except OSError: pass
+        run = {"s1": st, "s2": st}
+        xmlb = rd(outp)
+        X = None
+        if rc == 0 and xmlb is not None:
+            try: D, X = Q.xml_expect(xmlb)
+            except ET.ParseError: X = None
+        if X is None or not X.root_ok:
+            cx.v("C12|gama-local|rc!=0|epochs-%s" % fam[0], "epoch %s: rc=%s stderr=%r" % (st, rc, se[-300:]), run)
+            try: os.unlink(outp)
+            except OSError: pass
+            continue
+        check_struct(cx, X, -1, run)
+        got = {q["id"]: (q["hxy"], q["hz"]) for q in X.points["adjusted"]}
+        if got != EP.expected_adjusted(fam, st):
+            cx.v("C12|xml-identifiers|adjusted-coordinates|epochs-%s" % fam[0], "epoch %s: adjusted list of the XML %r, given %r" % (st, got, EP.expected_adjusted(fam, st)), run)
+        cx.out["epoch adjusted"] += 1
+    cx.sample = None
+    return (cx.viol, dict(cx.out), dict(cx.cnt), cx.sample)
+
+
+_EPX = {}
+def ep_view(path):
+    """(parsed view, path) of an epoch XML, cached per worker process"""
+    r = _EPX.get(path)
+    if r is None:
+        b = rd(path)
+        if b is None: return None
+        D, X = Q.xml_expect(b)
+        r = {"X": X, "path": path}
+        if len(_EPX) > 1500: _EPX.clear()
+        _EPX[path] = r
+    return r
+
+
+def task_epochs(task):
+    """one first epoch against every second epoch of its family (complete row of the ordered pairs)"""
+    cx = Ctx(task)
+    fam = tuple(task["fam"]); tmp, exes = task["tmp"], task["exes"]
+    d = ep_dir(tmp, fam)
+    s1 = task["s1"]
+    r1 = ep_view(os.path.join(d, s1 + ".xml"))
+    seconds = task.get("seconds") or EP.epochs(fam)
+    for s2 in seconds:
+        cx.cnt["states"] += 1; cx.cnt["epoch pairs"] += 1
+        r2 = ep_view(os.path.join(d, s2 + ".xml"))
+        if r1 is None or r2 is None:
+            cx.out["epoch pair skipped: an epoch was not adjusted"] += 1; continue
+        pcl = EP.pairclass(fam, s1, s2)
+        n = _deform(cx, r1, r2, "self" if s1 == s2 else "two", exes, tmp, "", "id", "plain",
+                    extra={"s1": s1, "s2": s2}, sfx="|epochs-%s|%s" % (fam[0], pcl), via_stdout=True)
+        if n is None: cx.out["deformation epochs %s-D: not as the reference" % fam[0]] += 1
+        else:
+            cx.out["deformation epochs %s-D %s: ok" % (fam[0], pcl)] += 1
+            cx.out["deformation epochs: %s common coordinates" % ("no" if n == 0 else "1-3" if n <= 3 else "4-6" if n <= 6 else "7-12")] += 1
+    cx.sample = "epochs: family %s first epoch %s (ids %s) x %d second epochs, e.g. %s" % (
+        EP.famkey(fam), s1, ",".join(EP.IDSETS[fam[1]][:fam[2]]), len(seconds), seconds[len(seconds) // 2])
+    return (cx.viol, dict(cx.out), dict(cx.cnt), cx.sample)
+
+
 def run_task(task):
     try:
         if task["kind"] == "lang": return task_lang(task)
+        if task["kind"] == "epochprep": return task_epochprep(task)
+        if task["kind"] == "epochs": return task_epochs(task)
         return task_idstate(task)
     except Exception as e:       # a bug of the check itself must be loud
         import traceback
@@ -867,9 +977,67 @@ def build_tasks(ck, exes):
     return tasks
 
 
+def epoch_families(ck):
+    only = [x for x in os.environ.get("C12_NETS", "").split(",") if x]
+    if only and "epochs" not in only: return []
+    return EP.families(ck.tier)
+
+
+def build_epoch_tasks(ck, exes):
+    """(preparation tasks, pair tasks): every epoch of every family is adjusted once,
+    then every ordered pair of epochs of a family goes through the tool"""
+    base = {"tmp": ck.tmp, "exes": exes}
+    prep, pairs = [], []
+    for fam in epoch_families(ck):
+        sts = EP.epochs(fam)
+        for k in range(0, len(sts), 24):
+            prep.append(dict(base, kind="epochprep", fam=list(fam), sts=sts[k:k + 24]))
+        for s1 in sts:
+            pairs.append(dict(base, kind="epochs", fam=list(fam), s1=s1))
+    return prep, pairs
+
+
+def replay_epochs(ck, exes, rp):
+    case = rp["case"]
+    fam = tuple(case["fam"]); s1, s2 = case["s1"], case["s2"]
+    d = ep_dir(ck.tmp, fam); os.makedirs(d, exist_ok=True)
+    stored = rp.get("files") or {}
+    cx = Ctx({"kind": "epochs", "fam": list(fam), "s1": s1})
+    views = []
+    for k, st in ((1, s1), (2, s2)):
+        text = stored.get("epoch%d.gkf" % k) or EP.gkf(fam, st)
+        if text != EP.gkf(fam, st): print("note: the recorded input of epoch %d differs from the regenerated one; the recorded text was run" % k)
+        inp = os.path.join(d, "replay%d.gkf" % k); outp = os.path.join(d, "replay%d.xml" % k)
+        with open(inp, "w", encoding="utf8") as f: f.write(text)
+        rc, so, se = run_cmd([exes["gama"], inp, "--xml", outp])
+        print("replay: gama-local epoch%d.gkf --xml epoch%d.xml  (family %s, statuses %s of points %s) rc=%s" % (
+            k, k, EP.famkey(fam), st, ",".join(EP.IDSETS[fam[1]][:fam[2]]), rc))
+        if rc != 0 or rd(outp) is None:
+            cx.v("C12|gama-local|rc!=0|epochs-%s" % fam[0], "epoch %s: rc=%s stderr=%r" % (st, rc, se[-300:]), {"s1": st, "s2": st})
+            views.append(None)
+            continue
+        D, X = Q.xml_expect(rd(outp))
+        check_struct(cx, X, -1, {"s1": st, "s2": st})
+        got = {q["id"]: (q["hxy"], q["hz"]) for q in X.points["adjusted"]}
+        if got != EP.expected_adjusted(fam, st):
+            cx.v("C12|xml-identifiers|adjusted-coordinates|epochs-%s" % fam[0], "epoch %s: adjusted list of the XML %r, given %r" % (st, got, EP.expected_adjusted(fam, st)), {"s1": st, "s2": st})
+        views.append({"X": X, "path": outp})
+    if views[0] is not None and views[1] is not None:
+        print("replay: gama-local-deformation epoch1.xml epoch2.xml")
+        _deform(cx, views[0], views[1], "self" if s1 == s2 else "two", exes, ck.tmp, "", "id", "plain",
+                extra={"s1": s1, "s2": s2}, sfx="|epochs-%s|%s" % (fam[0], EP.pairclass(fam, s1, s2)), via_stdout=True)
+    hits = [v for v in cx.viol if v[0] == rp["sig"]]
+    for sg, dt, r in cx.viol:
+        print(("SAME " if sg == rp["sig"] else "other") + " " + sg + " :: " + str(dt)[:300])
+    if not hits: print("violation %s not reproduced" % rp["sig"])
+    sys.exit(1 if hits else 0)
+
+
 def replay(ck, exes):
     rp = json.load(open(ck.args.replay))
     case = rp["case"]
+    if case.get("kind") in ("epochs", "epochprep"):
+        replay_epochs(ck, exes, rp)
     F = fam()
     ni = case["net"] if isinstance(case.get("net"), int) else [n for n, _, _ in F].index(case["net"])
     task = dict(case, net=ni, tmp=ck.tmp, exes=exes)
@@ -929,12 +1097,50 @@ def main():
     if ck.args.replay:
         replay(ck, exes)
     tasks = build_tasks(ck, exes)
+    eprep, epairs = build_epoch_tasks(ck, exes)
+    ntasks = len(tasks) + len(eprep) + len(epairs)
     # heavy tasks first (better load balance); results are order independent
     order = sorted(range(len(tasks)), key=lambda i: (0 if tasks[i]["kind"] == "lang" else 1, -fam()[tasks[i]["net"]][1].points.__len__()))
+    # the epochs are adjusted first (their XML files are the inputs of the pair tasks), the rows of epoch pairs
+    # (up to 609 tool runs each) go to the front of the queue
+    tasks = epairs + [tasks[i] for i in order]
+    order = range(len(tasks))
     done = 0
     import concurrent.futures as cf
     files_cache = {}
+
+    def absorb(res):
+        viol, out, cnt, sample = res
+        for k, v in out.items(): ck.outcome(k, v)
+        for k, v in cnt.items(): ck.count(k, v)
+        if sample and (done % 997 == 1 or (sample.startswith("epochs:") and not files_cache.get("epoch-sample"))):
+            ck.sample(sample)
+            if sample.startswith("epochs:"): files_cache["epoch-sample"] = True
+        for sig, detail, rp in viol:
+            rp = dict(rp)
+            files = None
+            if rp.get("kind") in ("epochs", "epochprep"):
+                sts = rp.pop("sts", None); rp.pop("seconds", None); rp["kind"] = "epochs"
+                rp.setdefault("s1", sts[0] if sts else EP.epochs(tuple(rp["fam"]))[0]); rp.setdefault("s2", rp["s1"])
+                if ck.known.match("C12", sig) is None:
+                    f_ = tuple(rp["fam"])
+                    files = {"epoch1.gkf": EP.gkf(f_, rp["s1"]), "epoch2.gkf": EP.gkf(f_, rp["s2"])}
+            else:
+                F = fam()
+                rp["net_name"] = F[rp["net"]][0]
+                if ck.known.match("C12", sig) is None:
+                    try:
+                        e0 = F[rp["net"]][1]
+                        net = N.apply(e0, rp["pos"], N.MENU_D[rp["item"]]) if rp["pos"] != "none" else e0
+                        files = {"input.gkf": N.gkf(net)}
+                    except Exception:
+                        files = None
+            ck.violation(sig, detail, replay=rp, files=files)
+
     with cf.ProcessPoolExecutor(max_workers=vlib.NCPU) as ex:
+        for res in ex.map(run_task, eprep):
+            done += 1
+            absorb(res)
         futs = []
         it = iter(order)
         pending = set()
@@ -952,25 +1158,10 @@ def main():
             fin, _ = cf.wait(pending, return_when=cf.FIRST_COMPLETED)
             for f in fin:
                 pending.discard(f)
-                viol, out, cnt, sample = f.result()
                 done += 1
-                for k, v in out.items(): ck.outcome(k, v)
-                for k, v in cnt.items(): ck.count(k, v)
-                if sample and (done % 997 == 1): ck.sample(sample)
-                for sig, detail, rp in viol:
-                    F = fam()
-                    rp = dict(rp); rp["net_name"] = F[rp["net"]][0]
-                    files = None
-                    if ck.known.match("C12", sig) is None:
-                        try:
-                            e0 = F[rp["net"]][1]
-                            net = N.apply(e0, rp["pos"], N.MENU_D[rp["item"]]) if rp["pos"] != "none" else e0
-                            files = {"input.gkf": N.gkf(net)}
-                        except Exception:
-                            files = None
-                    ck.violation(sig, detail, replay=rp, files=files)
+                absorb(f.result())
             submit_more()
-    if done < len(tasks): ck.exhaustive = False
+    if done < ntasks: ck.exhaustive = False
     if os.environ.get("C12_SIGS"):
         for k, v in sorted(ck.viol_sigs.items()): vlib.log("UNLISTED %6d  %s" % (v, k))
         for k, v in sorted(ck.nknown.items()): vlib.log("KNOWN    %6d  %s" % (v, k))
@@ -984,6 +1175,9 @@ def main():
         "language x encoding pairs whose script has no code points in the target charset (ru, ua outside cp-1251; zh outside utf-8) are executed but only a normal exit and a non-empty file are demanded",
         "a description whose first character is '<' is copied verbatim into the HTML output by design (html.cpp: 'description in HTML'); for that input the HTML is not judged",
         "menu item inner-blank (id 'P  7') is an extension of the stated menu: PointID keeps one inner blank by design",
+        "epoch pairs: 2-4 fixed anchors + 3 (thorough also 4) variable points, true coordinates moved by <= 6 mm and noise pattern shifted per epoch, "
+        "a-posteriori scaling (every epoch has its own covariance matrix); the shift and epoch-2 columns of a coordinate that is not adjusted in both "
+        "epochs (index 0 in the triple) are not judged (the tool prints x2 - 0 there)",
         "reference parsers: python xml.etree (expat) and the small parsers of lib/n12_parse.py"])
 
 
